@@ -71,6 +71,27 @@ func convertSchema(schema *schema_j5pb.Field) (*Schema, error) {
 	case *schema_j5pb.Field_String_:
 		out.SchemaItem.Type = convertStringItem(t.String_)
 
+	case *schema_j5pb.Field_Key:
+		// keys, bytes, dates, decimals and timestamps are strings on the wire
+		out.SchemaItem.Type = &StringItem{Format: Some("key")}
+
+	case *schema_j5pb.Field_Bytes:
+		item := &StringItem{Format: Some("byte")}
+		if t.Bytes.Rules != nil {
+			item.MinLength = Maybe(t.Bytes.Rules.MinLength)
+			item.MaxLength = Maybe(t.Bytes.Rules.MaxLength)
+		}
+		out.SchemaItem.Type = item
+
+	case *schema_j5pb.Field_Date:
+		out.SchemaItem.Type = &StringItem{Format: Some("date")}
+
+	case *schema_j5pb.Field_Decimal:
+		out.SchemaItem.Type = &StringItem{Format: Some("decimal")}
+
+	case *schema_j5pb.Field_Timestamp:
+		out.SchemaItem.Type = &StringItem{Format: Some("date-time")}
+
 	case *schema_j5pb.Field_Integer:
 		out.SchemaItem.Type = convertIntegerItem(t.Integer)
 
